@@ -67,6 +67,10 @@ const LOG_TARGET: &str = "litep2p::tcp::connection";
 #[path = "../../verif/c01_tcp.rs"]
 pub(crate) mod verif_c01_tcp;
 
+#[cfg(litep2p_verif)]
+#[path = "../../verif/tcploop.rs"]
+pub(crate) mod verif_tcploop;
+
 #[derive(Debug)]
 pub struct NegotiatedSubstream {
     /// Substream direction.
